@@ -353,7 +353,12 @@ func runC10(c *h.Ctx) {
 		if crossDoc != "" {
 			docTxt = crossDoc
 		}
-		checkFilter(c, &c10Case{lax: lax, prefix: prefix, cond: cond, cond2: cond2, doc: docTxt, useNum: r.IntN(2) == 0, tz: r.IntN(3) == 0, vars: vars})
+		useNum := r.IntN(2) == 0
+		if useNum && r.IntN(6) == 0 {
+			// a number only a UseNumber decode can hold (beyond float64)
+			docTxt = gen.InjectHuge(r, docTxt)
+		}
+		checkFilter(c, &c10Case{lax: lax, prefix: prefix, cond: cond, cond2: cond2, doc: docTxt, useNum: useNum, tz: r.IntN(3) == 0, vars: vars})
 	}
 	_ = strings.Join
 }
